@@ -63,7 +63,7 @@ func init() {
 				p := p
 				us = append(us, engine.Unit{Name: p.Name, Run: func(r *engine.Rec) { exploreProg(r, p, "C04") }})
 			}
-			us = append(us, engine.Unit{Name: "one-thread-histories", Run: seqHistories("C04")})
+			us = append(us, engine.Unit{Name: "one-thread-histories", Early: true, Run: seqHistories("C04")})
 			us = append(us, engine.RacePassUnit("C04"))
 			return us
 		},
@@ -80,8 +80,8 @@ func init() {
 				p := p
 				us = append(us, engine.Unit{Name: p.Name, Run: func(r *engine.Rec) { exploreProg(r, p, "C05") }})
 			}
-			us = append(us, engine.Unit{Name: "constructors", Run: constructorLadder})
-			us = append(us, engine.Unit{Name: "one-thread-histories", Run: seqHistories("C05")})
+			us = append(us, engine.Unit{Name: "constructors", Early: true, Run: constructorLadder})
+			us = append(us, engine.Unit{Name: "one-thread-histories", Early: true, Run: seqHistories("C05")})
 			return us
 		},
 	})
